@@ -19,8 +19,10 @@ import (
 	"errors"
 	"fmt"
 	"io"
+	"maps"
 	"math"
 	"net/http"
+	"slices"
 	"strconv"
 	"strings"
 	"time"
@@ -164,9 +166,14 @@ func (r restClientProtocol) prepareUnmarshalledRequest(op *operation, src []byte
 		}
 	}
 
-	// And finally from the query string:
+	// And finally from the query string. The parameters are applied in a
+	// fixed order (Go randomizes the order of a range over a map): when two
+	// of them address the same field, or more than one is invalid, the same
+	// request must not have different outcomes from run to run.
 	discardUnknownQueryParams := op.methodConf.restUnmarshalOptions.DiscardUnknownQueryParams
-	for fieldPath, values := range op.queryValues() {
+	queryValues := op.queryValues()
+	for _, fieldPath := range slices.Sorted(maps.Keys(queryValues)) {
+		values := queryValues[fieldPath]
 		fields, err := resolvePathToFieldDescriptors(
 			msg.Descriptor(), fieldPath, true,
 		)
